@@ -29,8 +29,8 @@ def run_main(chk, replay=None):
         elif e["e"] == "RunWeights" and (e["dataAllZero"] or 1 in e["zeroOut"]):
             chk.nontrivial(("r", e["run"], e["k"]))
     chk.cov["evaluations"] = len(rows)
-    chk.sample_each(rows, ("RefCase", "InitCase", "RefAny", "RunWeights"))
-    ok, matched, res = chk.validate("Trace_C08", trace, need_actions=("RefCase", "InitCase", "RefAny", "RunWeights"))
+    chk.sample_each(rows, ("RefCase", "InitCase", "RefAny", "RunWeights", "NextWeights"))
+    ok, matched, res = chk.validate("Trace_C08", trace, need_actions=("RefCase", "InitCase", "RefAny", "RunWeights", "NextWeights"))
     if not ok:
         bad = rows[matched] if matched < len(rows) else None
         chk.violation("C08:weights", trace, "event %d rejected by Trace_C08: %s" % (matched + 1, str(bad)[:700]))
